@@ -5,6 +5,7 @@ returns what the main model's `satisfies` returns — for every growth policy of
 import SpdxVerif.Model.GoApi
 import SpdxVerif.Props.C03
 import SpdxVerif.Props.C01Heap
+import SpdxVerif.Props.C03Match
 namespace Spdx.C03
 open Spdx.G
 
@@ -57,6 +58,7 @@ theorem g_satisfies_refines (grow : Nat → Nat → Nat) (e : Bytes) (L : List B
         obtain ⟨out, hf, _⟩ := fillG_ok A.length (List.replicate A.length none) A 0 (by simp)
         obtain ⟨front, hs⟩ := g_sortAndDedup_refines L A hA
         rw [hf, hs, g_expand_refines]; simp only [bind_ok]
+        rw [anyG_ok _ _ (fun part => g_isCompatible_refines part (sortAndDedupArray A))]
         rfl
 
 theorem g_satisfies_never_panics (grow : Nat → Nat → Nat) (e : Bytes) (L : List Bytes) : satisfiesG grow e L ≠ .panic := by
